@@ -222,69 +222,56 @@ Fixpoint lookup (p : str) (t : list pack) : option pack :=
   | e :: t' => if str_eqb (p_path e) p then Some e else lookup p t'
   end.
 
-(** in-place update of the first entry named [n]; None = no such entry, Some None = refused (already set) *)
-Fixpoint upd_comp (n : str) (c : compinfo) (t : list pack) : option (option (list pack)) :=
+(** options_add_comp and options_add_chunk are the same loop over two different fields of the entry; the model has
+    one generic loop, instantiated twice.  [refuse e]: the entry already has this kind of information (FAIL);
+    [setf e]: the entry with the new information; [mk n]: a fresh entry for name [n].
+
+    In-place update of the first entry named [n]: None = no such entry, Some None = refused (already set). *)
+Fixpoint upd_entry (refuse : pack -> bool) (setf : pack -> pack) (n : str) (t : list pack)
+  : option (option (list pack)) :=
   match t with
   | [] => None
   | e :: t' =>
-      if str_eqb n (p_path e) then
-        (if 0 <? c_type (p_comp e) then Some None
-         else Some (Some ({| p_path := p_path e; p_comp := c; p_chunk := p_chunk e |} :: t')))
-      else match upd_comp n c t' with
+      if str_eqb n (p_path e) then (if refuse e then Some None else Some (Some (setf e :: t')))
+      else match upd_entry refuse setf n t' with
            | None => None
            | Some None => Some None
            | Some (Some t'') => Some (Some (e :: t''))
            end
   end.
 
-Fixpoint upd_chunk (n : str) (k : chunkinfo) (t : list pack) : option (option (list pack)) :=
-  match t with
-  | [] => None
-  | e :: t' =>
-      if str_eqb n (p_path e) then
-        (if 0 <? k_rank (p_chunk e) then Some None
-         else Some (Some ({| p_path := p_path e; p_comp := p_comp e; p_chunk := k |} :: t')))
-      else match upd_chunk n k t' with
-           | None => None
-           | Some None => Some None
-           | Some (Some t'') => Some (Some (e :: t''))
-           end
-  end.
-
-(** options_add_comp / options_add_chunk: names already in the table (as it was when the call started) are updated
-    in place, the others are appended after the loop; with an empty table every name is appended unchecked. *)
-Fixpoint add_comp_loop (names : list str) (c : compinfo) (t added : list pack) : option (list pack) :=
+(** names already in the table (as it was when the call started) are updated in place, the others are appended
+    after the loop *)
+Fixpoint add_loop (refuse : pack -> bool) (setf : pack -> pack) (mk : str -> pack) (names : list str)
+         (t added : list pack) : option (list pack) :=
   match names with
   | [] => Some (t ++ rev added)
   | n :: r =>
-      match upd_comp n c t with
+      match upd_entry refuse setf n t with
       | Some None => None
-      | Some (Some t') => add_comp_loop r c t' added
-      | None => add_comp_loop r c t ({| p_path := n; p_comp := c; p_chunk := chunk_default |} :: added)
+      | Some (Some t') => add_loop refuse setf mk r t' added
+      | None => add_loop refuse setf mk r t (mk n :: added)
       end
   end.
 
+Definition set_comp_of (c : compinfo) (e : pack) : pack := {| p_path := p_path e; p_comp := c; p_chunk := p_chunk e |}.
+Definition set_chunk_of (k : chunkinfo) (e : pack) : pack := {| p_path := p_path e; p_comp := p_comp e; p_chunk := k |}.
+Definition mk_comp (c : compinfo) (n : str) : pack := {| p_path := n; p_comp := c; p_chunk := chunk_default |}.
+Definition mk_chunk (k : chunkinfo) (n : str) : pack := {| p_path := n; p_comp := comp_default; p_chunk := k |}.
+Definition has_comp (e : pack) : bool := 0 <? c_type (p_comp e).
+Definition has_chunk (e : pack) : bool := 0 <? k_rank (p_chunk e).
+
+(** with an empty table the C code appends every name without looking (the "first time insertion" branch) *)
 Definition add_comp (names : list str) (c : compinfo) (t : list pack) : option (list pack) :=
   match t with
-  | [] => Some (map (fun n => {| p_path := n; p_comp := c; p_chunk := chunk_default |}) names)
-  | _ => add_comp_loop names c t []
-  end.
-
-Fixpoint add_chunk_loop (names : list str) (k : chunkinfo) (t added : list pack) : option (list pack) :=
-  match names with
-  | [] => Some (t ++ rev added)
-  | n :: r =>
-      match upd_chunk n k t with
-      | Some None => None
-      | Some (Some t') => add_chunk_loop r k t' added
-      | None => add_chunk_loop r k t ({| p_path := n; p_comp := comp_default; p_chunk := k |} :: added)
-      end
+  | [] => Some (map (mk_comp c) names)
+  | _ => add_loop has_comp (set_comp_of c) (mk_comp c) names t []
   end.
 
 Definition add_chunk (names : list str) (k : chunkinfo) (t : list pack) : option (list pack) :=
   match t with
-  | [] => Some (map (fun n => {| p_path := n; p_comp := comp_default; p_chunk := k |}) names)
-  | _ => add_chunk_loop names k t []
+  | [] => Some (map (mk_chunk k) names)
+  | _ => add_loop has_chunk (set_chunk_of k) (mk_chunk k) names t []
   end.
 
 Definition has_star (names : list str) : bool := existsb (str_eqb star) names.
